@@ -234,10 +234,13 @@ def source_has_fill(variable):
     return False
 
 
-def save_mech(off, has_time):
+def save_mech(off, has_time, bounds=False):
     def mech(exc):
         if has_time and offset_defect_symptom(exc, off):
             return 'time-offset-format'
+        if bounds and isinstance(exc, AttributeError) and 'Attribute not found' in str(exc):
+            # fix_time_units_for_ems was pointed at the bounds variable, which has no units attribute in the file
+            return 'time-bounds-taken-for-time-coordinate'
         if not has_time:
             return 'to-netcdf-without-time'
         return 'save-roundtrip'
@@ -288,6 +291,12 @@ def one_roundtrip(obs, rng, conv, off, spec):
             # the usual EMS / SHOC layout: time stored as double precision numbers (whole multiples here, so exact)
             model.time['dtype'] = 'float64'
             obs.cls('roundtrip:time-stored-as-float64')
+        if period in ('days', 'hours', 'minutes') and chance(rng, 0.2):
+            # records a quarter of the unit after whole multiples (six-hourly output counted in days): only fractional
+            # numbers hold them, with or without a stored type named in the encoding (xarray then writes doubles)
+            model.time['values'] = (ref_ns + counts * pns + pns // 4).astype('datetime64[ns]')
+            model.time['fractional'] = True
+            obs.cls('roundtrip:time-values-are-fractions-of-the-unit')
         spec.update({'units': units, 'calendar': calendar, 'period': period, 'style': style, 'epoch': elabel})
         classify_units(obs, off, style, epoch, truth)
         if truth % 86400 == 0:
@@ -306,6 +315,18 @@ def one_roundtrip(obs, rng, conv, off, spec):
     opened = []
     try:
         ds = model.encode()
+        time_bounds = None
+        if has_time and chance(rng, 0.3):
+            # a CF bounds variable of the time coordinate (daily means, ...): decoded to instants as well, written without
+            # attributes of its own
+            tname, tdim = model.time['name'], model.time['dim']
+            tv = model.time['values']
+            width = numpy.timedelta64(tu.PERIOD_NS[period], 'ns')
+            time_bounds = (tname + '_bnds', numpy.stack([tv - width, tv + width], axis=1))
+            ds[time_bounds[0]] = xarray.DataArray(time_bounds[1], dims=[tdim, 'nv2'])
+            ds[tname].attrs['bounds'] = time_bounds[0]
+            obs.cls('roundtrip:time-coordinate-with-bounds')
+        model.time_bounds = time_bounds
         if has_time and conv in ('shoc_standard', 'shoc_simple') and chance(rng, 0.4):
             # SHOC names its record variable ('t' / 'time'); another decoded time-like variable (the start of the model
             # run, say) that comes FIRST in the file must not be mistaken for it
@@ -356,7 +377,7 @@ def one_roundtrip(obs, rng, conv, off, spec):
         # ---- A: the convention's save method -------------------------------------------------------------
         path_a = os.path.join(tmp, 'a.nc')
         with quiet_warnings():
-            r = obs.call('dataset.ems.to_netcdf', ems.to_netcdf, path_a, mech=save_mech(off, has_time))
+            r = obs.call('dataset.ems.to_netcdf', ems.to_netcdf, path_a, mech=save_mech(off, has_time, time_bounds is not None))
         if not isinstance(r, Failed):
             if not has_time:
                 obs.cls('roundtrip:saved-without-time-axis')
@@ -376,6 +397,27 @@ def one_roundtrip(obs, rng, conv, off, spec):
         if not isinstance(r, Failed):
             check_file(obs, model, path_b, fills, 'to_netcdf_with_fixes', has_time, how != 'none', period, truth, counts,
                        spec, opened)
+        # ---- D: the caller names other time units for the file (keyword arguments go to xarray's to_netcdf) -----------
+        if has_time and chance(rng, 0.3) and not model.time.get('fractional') and model.time.get('dtype') != 'float64':
+            # (instants that went through double precision numbers are not whole seconds to the nanosecond: xarray then
+            # picks units of its own, and the premise "the file carries the units the caller named" is gone)
+            elabel2, epoch2 = pick(rng, [e for e in tu.FILE_EPOCHS if e[1][3:] == (0, 0, 0)])
+            period2 = period if tu.PERIOD_NS[period] < 10 ** 9 else 'seconds'      # every instant is a whole number of these
+            units2, truth2 = tu.compose(period2, epoch2, 0, pick(rng, tu.styles_for(0)))
+            enc = {model.time['name']: {'units': units2, 'calendar': model.time['calendar'], 'dtype': numpy.dtype('int64')}}
+            path_d = os.path.join(tmp, 'd.nc')
+            obs.cls('roundtrip:units-overridden-by-encoding-argument')
+            with quiet_warnings():
+                r = obs.call('dataset.ems.to_netcdf(encoding={time: other units})', lambda: ems.to_netcdf(path_d, encoding=enc),
+                             mech=save_mech(0, has_time, time_bounds is not None))
+            if not isinstance(r, Failed):
+                was = model.time.get('dtype'), model.time['units']
+                model.time['dtype'], model.time['units'] = 'int64', units2
+                try:
+                    check_file(obs, model, path_d, fills, 'ems.to_netcdf(encoding=)', has_time, True, period2, truth2, None,
+                               spec, opened)
+                finally:
+                    model.time['dtype'], model.time['units'] = was
         # ---- C: one time slice: the time coordinate is a scalar, still "the time coordinate" -------------------------
         if has_time and chance(rng, 0.5):
             k = int(rng.integers(model.time['size']))
@@ -386,7 +428,7 @@ def one_roundtrip(obs, rng, conv, off, spec):
                 obs.cls('roundtrip:single-time-slice')
                 path_c = os.path.join(tmp, 'c.nc')
                 with quiet_warnings():
-                    r = obs.call('dataset.isel(time=k).ems.to_netcdf', lambda: one.ems.to_netcdf(path_c), mech=save_mech(off, has_time))
+                    r = obs.call('dataset.isel(time=k).ems.to_netcdf', lambda: one.ems.to_netcdf(path_c), mech=save_mech(off, has_time, time_bounds is not None))
                 if not isinstance(r, Failed):
                     check_time_slice(obs, model, path_c, k, period, truth, spec)
     finally:
@@ -396,6 +438,13 @@ def one_roundtrip(obs, rng, conv, off, spec):
             except Exception:  # noqa: BLE001
                 pass
         shutil.rmtree(tmp, ignore_errors=True)
+
+
+def raw_to_ns(raw, pns):
+    """Stored time numbers (whole or fractional) -> nanoseconds after the reference instant, in integer arithmetic."""
+    raw = numpy.asarray(raw, dtype='float64')
+    whole = numpy.floor(raw)
+    return whole.astype(numpy.int64) * pns + numpy.round((raw - whole) * pns).astype(numpy.int64)
 
 
 def check_time_slice(obs, model, path, k, period, truth, spec):
@@ -418,8 +467,9 @@ def check_time_slice(obs, model, path, k, period, truth, spec):
                    lambda: {'on disk': on_disk, 'got': parsed, 'want': (period, truth)}, mech='units-on-disk-instant')
         raw = numpy.asarray(tvar[...]).reshape(-1)
         want = int(model.time['values'].astype('int64')[k])
-        got = parsed[1] * 10 ** 9 + int(numpy.round(raw[0])) * tu.PERIOD_NS.get(parsed[0], 0) if raw.size == 1 else None
-        obs.expect(got == want, 'stored time number x period + reference instant = the instant of the slice',
+        got = parsed[1] * 10 ** 9 + int(raw_to_ns(raw, tu.PERIOD_NS.get(parsed[0], 0))[0]) if raw.size == 1 else None
+        obs.expect(got is not None and abs(got - want) <= (2000 if model.time.get('fractional') else 0),
+                   'stored time number x period + reference instant = the instant of the slice',
                    lambda: {'on disk': on_disk, 'raw': raw, 'got': got, 'want': want}, mech='time-instants-raw')
 
 
@@ -494,9 +544,12 @@ def check_file(obs, model, path, fills, how, has_time, units_fixed, period, trut
                            lambda: {'how': how, 'requested': model.time['units'], 'on disk': on_disk, 'got': parsed,
                                     'want': (period, truth)}, mech='units-on-disk-instant')
                 raw = numpy.asarray(tvar[...])
-                whole = bool(numpy.all(raw == numpy.round(raw)))
-                instants = parsed[1] * 10 ** 9 + numpy.round(raw).astype(numpy.int64) * tu.PERIOD_NS.get(parsed[0], 0)
-                obs.expect(whole and numpy.array_equal(instants, model.time['values'].astype('int64')),
+                whole = bool(numpy.all(raw == numpy.round(raw))) or bool(model.time.get('fractional'))
+                instants = parsed[1] * 10 ** 9 + raw_to_ns(raw, tu.PERIOD_NS.get(parsed[0], 0))
+                # fractional numbers are doubles: a quarter of a minute 85 million minutes after the epoch is exact to 1 us
+                tol = 2000 if model.time.get('fractional') else 0
+                obs.expect(whole and instants.shape == model.time['values'].shape
+                           and bool(numpy.all(numpy.abs(instants - model.time['values'].astype('int64')) <= tol)),
                            'stored time numbers x period + reference instant on disk = the original instants',
                            lambda: {'how': how, 'on disk': on_disk, 'raw': raw, 'want counts': counts}, mech='time-instants-raw')
             cal = tvar.getncattr('calendar') if 'calendar' in tvar.ncattrs() else None
@@ -565,7 +618,7 @@ def check_file(obs, model, path, fills, how, has_time, units_fixed, period, trut
         if obs.expect(name in back.variables, 'time variable is present in the reopened dataset'):
             got = back[name].values
             # double precision time numbers are decoded by floating point arithmetic: allow 1 microsecond there
-            slack = 1000 if model.time.get('dtype') == 'float64' else 0
+            slack = 2000 if model.time.get('fractional') else 1000 if model.time.get('dtype') == 'float64' else 0
             obs.expect(got.dtype.kind == 'M' and got.shape == model.time['values'].shape
                        and bool(numpy.all(numpy.abs(got.astype('datetime64[ns]').astype('int64')
                                                     - model.time['values'].astype('int64')) <= slack)),
@@ -573,3 +626,12 @@ def check_file(obs, model, path, fills, how, has_time, units_fixed, period, trut
                        lambda: {'how': how, 'requested units': model.time['units'], 'got': got.astype(str),
                                 'want': model.time['values'].astype(str)}, mech='time-instants-decoded')
             obs.cls('roundtrip:time-instants-compared')
+            if getattr(model, 'time_bounds', None) is not None:
+                bname, bwant = model.time_bounds
+                if obs.expect(bname in back.variables, 'bounds variable of the time coordinate is present in the reopened dataset',
+                              mech='time-bounds'):
+                    bgot = back[bname].values
+                    obs.expect(bgot.dtype.kind == 'M' and bgot.shape == bwant.shape
+                               and bool(numpy.all(numpy.abs(bgot.astype('datetime64[ns]').astype('int64') - bwant.astype('int64')) <= slack)),
+                               'decoded bounds of the time coordinate are the same instants',
+                               lambda: {'how': how, 'got': bgot.astype(str), 'want': bwant.astype(str)}, mech='time-bounds')
